@@ -33,7 +33,7 @@ func ops(spec ...string) []Op {
 
 func tierDeadline(tier string) time.Duration {
 	if tier == "thorough" {
-		return 25 * time.Minute
+		return 12 * time.Minute
 	}
 	return 170 * time.Second
 }
